@@ -579,12 +579,19 @@ func (cu *CellUnion) decode(d *decoder) {
 		return
 	}
 	const maxCells = 1000000
-	if n > maxCells {
+	if n < 0 || n > maxCells {
 		d.err = fmt.Errorf("too many cells (%d; max is %d)", n, maxCells)
 		return
 	}
 	*cu = make([]CellID, n)
 	for i := range *cu {
 		(*cu)[i].decode(d)
+		if d.err == nil && !(*cu)[i].IsValid() {
+			d.err = fmt.Errorf("invalid cell id %#x", uint64((*cu)[i]))
+		}
+		if d.err != nil {
+			*cu = nil
+			return
+		}
 	}
 }
